@@ -14,10 +14,7 @@ func rulePanicBounds(p *Prog, r *Report) {
 	fns := p.RepoReachable(roots...)
 	b := newBP(p)
 	kinds := map[string]int{}
-	for _, fn := range fns {
-		if fn.Origin() != nil {
-			continue
-		}
+	for _, fn := range p.Representatives(fns) {
 		f := b.forFn(fn)
 		fk := p.FnKey(fn)
 		for _, blk := range fn.Blocks {
